@@ -29,9 +29,18 @@ var anchorFiles = map[string][]string{
 	"C20": {"pkg/server/server.go", "pkg/server/fsm.go", "pkg/server/peer.go", "internal/pkg/table/table.go", "internal/pkg/table/table_manager.go", "internal/pkg/table/policy.go"},
 }
 
+// extraAnchorFiles: files that hold code the property's mechanisms call into although properties.jsonl does not list them.
+var extraAnchorFiles = map[string][]string{
+	"C08": {"pkg/packet/bgp/validate.go", "pkg/server/peer.go"},
+	"C14": {"pkg/packet/bgp/bgp.go"},
+	"C05": {"pkg/packet/bgp/validate.go"},
+	"C01": {"internal/pkg/table/adj.go", "internal/pkg/table/table_manager.go"},
+	"C12": {"internal/pkg/table/path.go"},
+}
+
 // ruleRatchets runs the baseline ratchets over the files the property is anchored in.
 func (c *Ctx) ruleRatchets(cid string) {
-	files := anchorFiles[cid]
+	files := append(append([]string{}, anchorFiles[cid]...), extraAnchorFiles[cid]...)
 	in := map[string]bool{}
 	pk := map[string]bool{}
 	for _, f := range files {
@@ -47,4 +56,6 @@ func (c *Ctx) ruleRatchets(cid string) {
 	c.ruleCaseRatchet("E4.case-ratchet", pkgs, filter, "baselines/switches.json", 1)
 	c.ruleCallRatchet("E6.call-ratchet", pkgs, filter, "baselines/calls.json", 5)
 	c.ruleOrderRatchet("E6.order-ratchet", pkgs, filter, "baselines/calls.json", 5)
+	c.ruleConditionRatchet("E6.condition-ratchet", pkgs, filter, "baselines/conds.json", 5)
+	c.ruleExitRatchet("E6.exit-ratchet", pkgs, filter, "baselines/calls.json", 5)
 }
